@@ -168,7 +168,8 @@ class Message:
             raise RuntimeError('This class can not be instantiated')
 
     Length: ClassVar[dict[int, Callable[[int], bool]]] = {
-        CODE.OPEN: lambda _: _ >= 29,  # noqa
+        # RFC 8654 section 4: the extended size applies to every message except OPEN and KEEPALIVE
+        CODE.OPEN: lambda _: 29 <= _ <= 4096,  # noqa
         CODE.UPDATE: lambda _: _ >= 23,  # noqa
         CODE.NOTIFICATION: lambda _: _ >= 21,  # noqa
         CODE.KEEPALIVE: lambda _: _ == 19,  # noqa
